@@ -120,7 +120,11 @@ def write_problem(wd, asms=None, positions=None, gap_model='flow', length=1.0, t
     pitch = assembly_pitch or (outer + 0.004)
     # power file: one entry per position, in position order
     plist = []
-    for (nm, ring, pos, fr) in positions:
+
+    def dassh_id(ring, pos):
+        return 0 if ring == 1 else 3 * (ring - 2) * (ring - 1) + pos
+    # the power file is indexed by DASSH position id, not by the order of the assignment list
+    for (nm, ring, pos, fr) in sorted(positions, key=lambda t: dassh_id(t[1], t[2])):
         kw = asms[nm]
         plist.append((kw.get('n_ring', 2), kw.get('n_duct', 1)))
     pfiles = []
